@@ -43,12 +43,12 @@ class SIR(ss.Infection):
     def step_state(self):
         # Progress infectious -> recovered
         sim = self.sim
-        recovered = (self.infected & (self.ti_recovered <= sim.ti)).uids
+        recovered = (self.infected & (self.ti_recovered <= self.ti)).uids
         self.infected[recovered] = False
         self.recovered[recovered] = True
 
         # Trigger deaths
-        deaths = (self.ti_dead <= sim.ti).uids
+        deaths = (self.ti_dead <= self.ti).uids
         if len(deaths):
             sim.people.request_death(deaths)
         return
